@@ -53,7 +53,8 @@ DefaultsFit(M) == \A n \in DOMAIN M.decl : LET D == M.decl[n] IN
 \* ---------------- actions ----------------
 \* result of running an action list:
 \*   k = "next"  ran to the end
-\*       "ret"   returned from the API function with code x (finish / yield)
+\*       "ret"   returned from the API function with code x (finish)
+\*       "yld"   returned from the API function with yield code x
 \*       "ovf"   out-of-space: abandon the list, continue dispatching the SAME symbol in state x
 \*       "brk"   break: abandon the list, target state becomes x, transition epilogue still applies
 \*       "ub" / "wide"  evaluation left the defined / modelled range (x = reason)
@@ -115,7 +116,7 @@ RunActs(M, acts, i, d, ev, last, mode) ==
            ELSE LET r == AppendByte(M, d, a.var, x.v, a.ovf, ev) IN
                 IF r.k = "next" THEN go(r.d, ev) ELSE r
       [] a.op = "finish" -> AR(d, ev, "ret", IF a.code = "" THEN "DONE" ELSE "FINISH_" \o a.code)
-      [] a.op = "yield"  -> AR(d, ev, "ret", "YIELD_" \o a.code)
+      [] a.op = "yield"  -> AR(d, ev, "yld", "YIELD_" \o a.code)
       [] a.op = "cond" ->
            LET r == RunBranches(M, a.branches, 1, d, ev, last, mode) IN
            IF r.k = "next" THEN go(r.d, r.ev) ELSE r
@@ -156,7 +157,8 @@ Pick(s, c) ==
 \*      "SPIN"  fuel exhausted (a cycle of non-consuming moves)
 \*      "ub" | "wide"  see NmfuExpr
 \* adv: 1 iff the start pointer has moved past this byte when the call returns
-Res(q, d, ev, res, adv, why) == [q |-> q, d |-> d, ev |-> ev, res |-> res, adv |-> adv, why |-> why]
+\* y  : TRUE iff res is a yield code (the caller is expected to re-invoke feed at the reported position)
+Res(q, d, ev, res, adv, why) == [q |-> q, d |-> d, ev |-> ev, res |-> res, adv |-> adv, why |-> why, y |-> FALSE]
 
 RECURSIVE Dispatch(_, _, _, _, _, _)
 RECURSIVE FirstTrue(_, _, _, _, _)
@@ -176,6 +178,7 @@ Dispatch(M, q, d, ev, c, fuel) ==
             adv1 == IF t.early /\ ~isEnd THEN 1 ELSE pre
             r == RunActs(M, t.acts, 1, d, ev, last, mode) IN
         CASE r.k = "ret" -> Res(q1, r.d, r.ev, r.x, adv1, "")
+          [] r.k = "yld" -> [Res(q1, r.d, r.ev, r.x, adv1, "") EXCEPT !.y = TRUE]
           [] r.k \in {"ub", "wide"} -> Res(q1, r.d, r.ev, r.k, adv1, r.x)
           \* out of space: the byte is NOT consumed; it is dispatched again in the handler state
           \* (an early advance of this transition must not survive the redirect)
@@ -212,6 +215,7 @@ StartStep(M) ==
   LET d0 == InitStore(M)
       r == RunActs(M, M.sacts, 1, d0, <<>>, 0, "start") IN
   CASE r.k = "ret" -> Res(M.start, r.d, r.ev, r.x, 0, "")
+    [] r.k = "yld" -> [Res(M.start, r.d, r.ev, r.x, 0, "") EXCEPT !.y = TRUE]
     [] r.k \in {"ovf", "brk"} -> Res(r.x, r.d, r.ev, "OK", 0, "")     \* state->state = x; return OK
     [] r.k \in {"ub", "wide"} -> Res(M.start, r.d, r.ev, r.k, 0, r.x)
     [] OTHER -> Res(M.start, r.d, r.ev, "OK", 0, "")
